@@ -240,6 +240,7 @@ func (c *Ctx) Absorb(job Job, r Result, props ...string) {
 	}
 	if r.Crash != "" {
 		c.counters["worker_crashes"]++
+		c.counters["crash_class:"+CrashSig(r.Crash)]++
 		r.Viol = append(r.Viol, Violation{Prop: "C09", Sig: CrashSig(r.Crash), Msg: firstLines(r.Crash, 12), Step: len(job.Hist)})
 	}
 	for _, v := range r.Viol {
